@@ -107,7 +107,8 @@ def make_dataset(frame, kshape, bits, psf_kind="nonneg", seed=0, sub=1, data_kin
 
 OBJ_KINDS = ("rectA", "rectB", "del", "func", "funcS")
 # extra kinds used by explicit menus only (not part of the permutation alphabet): a second, different 2-function list
-EXTRA_KINDS = ("funcB",)
+# and a rectangular mapper with a few hundred parameters (18x18 mesh over the same source plane as rectA)
+EXTRA_KINDS = ("funcB", "rectL")
 
 
 def _func_list_cls():
@@ -167,14 +168,17 @@ DEL_VERTS = np.array(
 )
 
 
-def make_obj(fx, kind, reg=True, seed=0, coefficient=1.0):
+def make_obj(fx, kind, reg=True, seed=0, coefficient=1.0, regularization=None):
+    """regularization: a ready regularization scheme instance (overrides reg / coefficient, which give Constant)."""
     aa = fx["aa"]
     mask = fx["mask"]
     regul = aa.reg.Constant(coefficient=coefficient) if reg else None
-    if kind in ("rectA", "rectB"):
-        osr, s = source_plane(fx, "identity" if kind == "rectA" else "warp", seed)
+    if regularization is not None:
+        regul = regularization
+    if kind in ("rectA", "rectB", "rectL"):
+        osr, s = source_plane(fx, "warp" if kind == "rectB" else "identity", seed)
         sg = aa.Grid2DIrregular(values=s)
-        mesh = aa.Mesh2DRectangular.overlay_grid(shape_native=(3, 3) if kind == "rectA" else (3, 4), grid=sg)
+        mesh = aa.Mesh2DRectangular.overlay_grid(shape_native={"rectA": (3, 3), "rectB": (3, 4), "rectL": (18, 18)}[kind], grid=sg)
         return aa.Mapper(
             mapper_grids=aa.MapperGrids(mask=mask, source_plane_data_grid=sg, source_plane_mesh_grid=mesh, adapt_data=fx["ds"].noise_map),
             over_sampler=osr, regularization=regul,
